@@ -452,6 +452,8 @@ def run_shard(sh):
             if exp.error is None and (any(v is None or isinstance(v, (list, tuple)) for r in exp.records for v in r) or any(len(r) == 0 for r in exp.records)):
                 res.feat('skipped_non_string_results')      # the quantifier: results over string cells only (None / list values are rendered differently by each backend by design)
                 continue
+            if exp.error is not None and exp.error[0] == 'sort':
+                continue          # incomparable sort keys: outside every property
             res.states += 1
             if sh['part'] == 'api':
                 run_api_entry_points(res, q, A, hdr, exp, scratch)
@@ -463,6 +465,10 @@ def run_shard(sh):
                         if not table_ok_for(T, cfg):
                             continue
                         e2 = exp if T is A else expected(q, T, hdr)
+                        if e2.error is not None and e2.error[0] == 'sort':
+                            continue
+                        if e2.error is None and (any(v is None or isinstance(v, (list, tuple)) for r in e2.records for v in r) or any(len(r) == 0 for r in e2.records)):
+                            continue
                         for via_stdin in (False, True):
                             run_cli_inprocess(res, q, T, hdr, e2, cfg, scratch, via_stdin)
                             res.transitions += 1
@@ -478,6 +484,8 @@ def run_shard(sh):
                     T = SPECIAL['latin']
                 if table_ok_for(T, cfg):
                     e2 = exp if T is A else expected(q, T, hdr)
+                    if (e2.error is not None and e2.error[0] == 'sort') or (e2.error is None and (any(v is None or isinstance(v, (list, tuple)) for r in e2.records for v in r) or any(len(r) == 0 for r in e2.records))):
+                        continue
                     run_cli_subprocess(res, q, T, hdr, e2, cfg, scratch, via_stdin=(idx // len(CLI_CFGS)) % 2 == 0)
                     res.transitions += 1
             res.outcome('err' if exp.error else 'ok')
